@@ -91,4 +91,18 @@ def rightKerModPrime (rows cols : Nat) (mat : Mat) (p : Int) : Res (List Int) :=
 def ker4x4ModPrime (mat : Mat) (p : Int) : Res (List Int) := rightKerModPrime 4 4 mat p
 def ker4x5ModPrime (mat : Mat) (p : Int) : Res (List Int) := rightKerModPrime 4 5 mat p
 
+/-! ## certificate checker for `ibz_4x4_right_ker_mod_power_of_2` (Howell form, matkermod.c)
+
+The Howell-form computation itself is not modelled; instead every vector the real code returns is passed through
+this checker (driver op `chkker2e`), whose soundness is a theorem (`SqiProps.C17.ker_pow2_check_sound`). -/
+
+def dotInt : List Int → List Int → Int
+  | a :: r, b :: w => a * b + dotInt r w
+  | _, _ => 0
+
+/-- accepts iff v has as many entries as the rows, some entry is odd (primitive), and every row·v ≡ 0 (mod 2^e) -/
+def kerPow2Check (mat : Mat) (e : Nat) (v : List Int) : Bool :=
+  mat.all (fun row => row.length == v.length) && v.any (fun x => x % 2 == 1) &&
+  mat.all (fun row => dotInt row v % 2 ^ e == 0)
+
 end SqiModel.Kernels
